@@ -1,6 +1,7 @@
 package sim
 
 import (
+	"bytes"
 	"fmt"
 	"reflect"
 
@@ -151,8 +152,48 @@ func c19Pool(r *Run, t *tape.Tape) []c19Item {
 	return pool
 }
 
+// c19Twins: a message is decoded, then its near twin (twins.go): what the
+// second decode returns is a function of the twin's own bytes.
+func c19Twins(r *Run, t *tape.Tape) {
+	tw := genTwins(t)
+	r.Fired("history.near-twin/" + tw.how)
+	var ma, mb cose.Sign1Message
+	var ea, eb error
+	r.Lib(func() { ea = ma.UnmarshalCBOR(append([]byte{}, tw.a...)) })
+	r.Lib(func() { eb = mb.UnmarshalCBOR(append([]byte{}, tw.b...)) })
+	r.Op("DECODE", "message -> %s, near twin (%s) -> %s", errTag(ea), tw.how, errTag(eb))
+	r.Outcome("neartwin/" + tw.how + "/" + errTag(eb))
+	r.Check()
+	if ea != nil {
+		r.Fail("conforming-message-refused/near-twin", "a conforming COSE_Sign1 is refused: %v\n%s", ea, hexShort(tw.a))
+	}
+	if tw.malformed {
+		if eb == nil {
+			r.Fail("verdict-depends-on-history/near-twin/"+tw.how, "a COSE_Sign1 whose protected bucket repeats label 3 is accepted after a message with a protected bucket of the same %s was decoded\nfirst:  %s\nsecond: %s", tw.how, hexShort(tw.a), hexShort(tw.b))
+		}
+		return
+	}
+	if eb != nil {
+		r.Fail("verdict-depends-on-history/near-twin/"+tw.how, "a conforming COSE_Sign1 is refused (%v) after its near twin was decoded\nfirst:  %s\nsecond: %s", eb, hexShort(tw.a), hexShort(tw.b))
+	}
+	ct, _ := mb.Headers.Protected[int64(3)].(string)
+	patch, _ := mb.Headers.Protected[int64(-70000)].([]byte)
+	wantRaw := refcbor.Encode(refcbor.Bstr(tw.protB))
+	if ct != tw.textB || !bytes.Equal(patch, tw.patchB) || !bytes.Equal(mb.Headers.RawProtected, wantRaw) {
+		r.Fail("decoded-value-depends-on-history/near-twin/"+tw.how, "the second of two messages whose protected buckets share %s decodes to content type %q, -70000: %x, raw protected %x; its bytes say %q, %x, %x", tw.how, ct, patch, mb.Headers.RawProtected, tw.textB, tw.patchB, wantRaw)
+	}
+	cta, _ := ma.Headers.Protected[int64(3)].(string)
+	if cta != tw.textA {
+		r.Fail("earlier-decoded-value-changed-by-later-operation/near-twin", "the first message's content type reads %q after its twin was decoded, its bytes say %q", cta, tw.textA)
+	}
+}
+
 func scenarioC19(r *Run) {
 	t := r.T
+	if t.Bool(1, 20, "c19.neartwin") {
+		c19Twins(r, t)
+		return
+	}
 	pool := c19Pool(r, t)
 	if len(pool) == 0 {
 		r.Outcome("no-traffic")
